@@ -48,6 +48,10 @@ pub fn install_panic_hook() {
         } else {
             "<non-string panic>".to_string()
         };
+        if std::env::var_os("BPAFMC_LOUD_PANIC").is_some() {
+            // debugging aid: panics that nothing catches end a worker silently otherwise
+            eprintln!("panic: {} at {}", msg, loc);
+        }
         LAST_PANIC.with(|p| *p.borrow_mut() = format!("{} at {}", msg, loc));
     }));
 }
